@@ -15,6 +15,9 @@ pub struct SrcCfg {
     pub allow_nested: bool,
     pub non_ascii: bool,
     pub syntax_errors: usize,
+    /// compound statements whose body is not indented: tree-sitter-python gives them a
+    /// zero-width `block` node (and no ERROR node)
+    pub empty_blocks: bool,
 }
 
 impl Default for SrcCfg {
@@ -25,6 +28,7 @@ impl Default for SrcCfg {
             allow_nested: true,
             non_ascii: true,
             syntax_errors: 0,
+            empty_blocks: false,
         }
     }
 }
@@ -82,6 +86,16 @@ fn stmt(r: &mut Rng, cfg: &SrcCfg, indent: usize, depth: usize, out: &mut Vec<St
     } else {
         r.below(10)
     };
+    if cfg.empty_blocks && r.chance(1, 12) {
+        let head = match r.below(3) {
+            0 => format!("def {}():", r.pick(FUNCS)),
+            1 => format!("if {}:", ident(r, cfg)),
+            _ => format!("for {} in {}:", ident(r, cfg), ident(r, cfg)),
+        };
+        out.push(format!("{}{}", pad, head));
+        out.push(format!("{}{} = {}", pad, ident(r, cfg), r.below(9)));
+        return;
+    }
     match w {
         0 => out.push(format!("{}pass", pad)),
         1 | 2 => out.push(format!("{}{} = {}", pad, ident(r, cfg), expr(r, cfg, 0))),
